@@ -40,6 +40,13 @@ def _strip_list(e):
 def _describe(target, it, loop, name, out):
     """Fill out[name] for names bound by `target` iterating over `it`."""
     it = _strip_list(it)
+    # for i in range(len(C)):  i counts the positions of C
+    if isinstance(it, ast.Call) and isinstance(it.func, ast.Name) and it.func.id == "range" and len(it.args) == 1 and not it.keywords \
+            and isinstance(it.args[0], ast.Call) and isinstance(it.args[0].func, ast.Name) and it.args[0].func.id == "len" and len(it.args[0].args) == 1 \
+            and isinstance(target, ast.Name):
+        if target.id == name:
+            out.append(Binding(loop, "counter", _strip_list(it.args[0].args[0]), (), 0))
+        return
     if isinstance(it, ast.Call) and isinstance(it.func, ast.Name) and it.func.id == "enumerate" and it.args:
         start = 0
         if len(it.args) > 1 and isinstance(it.args[1], ast.Constant):
